@@ -23,9 +23,11 @@ RULE = (
 )
 
 
-def gains(d, rng, shape, complex_, span=100):
+def gains(d, rng, shape, complex_, span=100, prefer=None):
     u = rng.uniform(-span, span, size=shape)
     mode = d.choice(['wide', 'wide', 'narrow', 'tiny', 'huge', 'near-unity'])
+    if prefer is not None and d.aux(41).integers(0, 2):
+        mode = prefer
     if mode == 'near-unity':
         # level mismatch of a few ppm (e.g. observations that were normalised
         # in another precision)
@@ -50,11 +52,16 @@ def _mixture(d, ctx, kind, **kw):
     ctx.describe(**case.describe())
     rng = d.rng()
     complex_obs = kind != 'vmfmm'
-    if d.int(0, 3) == 0:
+    pre_normalised = d.int(0, 3) == 0
+    if pre_normalised:
         # observations that already have unit norm
         case.y = mm.normalize(case.y)
         ctx.label('pre-normalised')
-    g, span, mode = gains(d, rng, (*case.lead, case.N, 1), complex_obs)
+    # observations that are already normalised meet gains of a few ppm in
+    # every second such case (the level mismatch of a normalisation carried
+    # out elsewhere, in another precision)
+    g, span, mode = gains(d, rng, (*case.lead, case.N, 1), complex_obs,
+                          prefer='near-unity' if pre_normalised else None)
     scaled = case.copy(y=case.y * g)
     if kind == 'vmfcacgmm':
         ge, _, _ = gains(d, rng, (*case.lead, case.N, 1), False)
